@@ -477,3 +477,41 @@ func ZZ_H03g_History() {
 	}
 	zzvrt.Reach("history-done")
 }
+
+// ---------------------------------------------------------------------------------------------
+// H03b: the rate functions compute the percentage rounded half away from zero, for every
+// 0 <= x <= n <= N (floating point division of two symbolic integers). On an exact .5 tie the
+// float pipeline may land on either neighbour (e.g. 13851/48600 gives 28, not 29), both are accepted.
+func ZZ_H03b_RateLemma() {
+	N := uint(zzvrt.Param("max_n", 16))
+	n := zzvrt.Uint("n")
+	x := zzvrt.Uint("x")
+	zzvrt.Assume(n >= 1)
+	zzvrt.Assume(n <= N)
+	zzvrt.Assume(x <= n)
+	var got uint
+	switch zzvrt.Choose("function", 4) {
+	case 0:
+		got = (&countingStats{occupiedBits: n, failures: x, successes: n - x}).failureRate()
+	case 1:
+		got = (&countingStats{occupiedBits: n, failures: n - x, successes: x}).successRate()
+	case 2:
+		got = (&timedStats{summary: stat{failures: x, successes: n - x}}).failureRate()
+	default:
+		got = (&timedStats{summary: stat{failures: n - x, successes: x}}).successRate()
+	}
+	lo := (100 * x) / n
+	rem := (100 * x) % n
+	want := lo
+	if 2*rem > n {
+		want = lo + 1
+	}
+	if 2*rem == n {
+		zzvrt.Assert(got >= lo, "rate: rounded percentage (tie: either neighbour)")
+		zzvrt.Assert(got <= lo+1, "rate: rounded percentage (tie: either neighbour)")
+	} else {
+		zzvrt.Assert(got == want, "rate: percentage rounded to the nearest integer")
+	}
+	zzvrt.Assert((&countingStats{}).failureRate() == 0, "rate: zero executions give rate 0")
+	zzvrt.Reach("rate-lemma-done")
+}
